@@ -20,7 +20,15 @@ JOBSETS['bytes'] = {
     'wall': {'quick': 1500, 'thorough': 7200},
 }
 
+JOBSETS['decmsg'] = {
+    'gen': {'families': {'quick': ['evolve', 'required'], 'thorough': ['evolve_full', 'required']}, 'bounds': {'quick': '1,1,1,2', 'thorough': '2,2,1,2'}},
+    'kinds': ['decmsg'],
+    'cfg': {'quick': {'timeout_s': 300, 'solver_timeout_ms': 10000}, 'thorough': {'timeout_s': 3000, 'solver_timeout_ms': 60000}},
+    'wall': {'quick': 1500, 'thorough': 7200},
+}
+
 PROPS = {
+    'C03': {'jobsets': ['decmsg', 'bytes'], 'phases': ['decode']},
     'C05': {'jobsets': ['bytes'], 'phases': ['decode']},
     'C01': {'jobsets': ['codec'], 'phases': ['decode']},
     'C02': {'jobsets': ['codec'], 'phases': []},
